@@ -1099,6 +1099,8 @@ def _put_slice_stmtlike_old(
     if code is None:
         put_fst = None
         put_fst_end_nl = False
+        is_handlers = field == 'handlers'
+        star = None
 
     else:
         if is_handlers := (field == 'handlers'):
@@ -1340,20 +1342,20 @@ def _put_slice_stmtlike_old(
 
         put_fst._unmake_fst_parents(True)
 
-        if is_handlers and star is None and ast_cls is not _ExceptHandlers:  # we may have to change Try <-> TryStar if put ExceptHandlers and all handlers replaced
-            is_except_star = body[0].f.is_except_star() if body else False  # if no handler then we must change it to a Try if is TryStar
+    if is_handlers and star is None and ast_cls is not _ExceptHandlers:  # we may have to change Try <-> TryStar if put ExceptHandlers and all handlers replaced or deleted
+        is_except_star = body[0].f.is_except_star() if body else False  # if no handler then we must change it to a Try if is TryStar
 
-            if is_except_star != (ast_cls is TryStar):  # need to swap?
-                new_type = TryStar if is_except_star else Try
-                new_ast = new_type(body=ast.body, handlers=body, orelse=ast.orelse, finalbody=ast.finalbody,
-                                   lineno=ast.lineno, col_offset=ast.col_offset,
-                                   end_lineno=ast.end_lineno, end_col_offset=ast.end_col_offset)
-                new_ast.f = self  # FST remains same
-                self.a = new_ast  # point to new AST
-                ast.f = None  # clean up old AST
+        if is_except_star != (ast_cls is TryStar):  # need to swap?
+            new_type = TryStar if is_except_star else Try
+            new_ast = new_type(body=ast.body, handlers=body, orelse=ast.orelse, finalbody=ast.finalbody,
+                               lineno=ast.lineno, col_offset=ast.col_offset,
+                               end_lineno=ast.end_lineno, end_col_offset=ast.end_col_offset)
+            new_ast.f = self  # FST remains same
+            self.a = new_ast  # point to new AST
+            ast.f = None  # clean up old AST
 
-                if pfield := self.pfield:  # if there is a parent then set new AST as the child replacing current child
-                    pfield.set(self.parent.a, new_ast)
+            if pfield := self.pfield:  # if there is a parent then set new AST as the child replacing current child
+                pfield.set(self.parent.a, new_ast)
 
     for i in range(start + put_len, len(body)):
         body[i].f.pfield = astfield(field, i)
